@@ -2602,6 +2602,10 @@ const fn get_expiration_time(created: u64, ttl: u32, percent: u32) -> u64 {
     created + (ttl as u64 * percent as u64 * 10)
 }
 
+#[cfg(feature = "verif-hooks")]
+#[path = "verif/parser_view.rs"]
+pub(crate) mod verif_view;
+
 #[cfg(test)]
 mod tests {
     use super::{
